@@ -173,6 +173,15 @@ func handleUpdateAssignmentList(p *UpdatePlan) error {
 			return fmt.Errorf("cannot update shard column value")
 		}
 		removeSchemaAndTableInfoInColumnName(assignment.Column)
+
+		// the column names in the assigned value are rewritten like those of the WHERE clause
+		if assignment.Expr != nil {
+			expr, err := rewriteColumnNamesInExpr(p.TableAliasStmtInfo, assignment.Expr)
+			if err != nil {
+				return fmt.Errorf("rewrite column names in assignment value error: %v", err)
+			}
+			assignment.Expr = expr
+		}
 	}
 	return nil
 }
